@@ -325,6 +325,9 @@ def _worker_main(modname, tier, widx, nworkers, seed, stale, rundir, stage_dir):
         import logging
         logging.getLogger('be.kuleuven.dtai.distance').setLevel(logging.CRITICAL)
         signal.signal(signal.SIGALRM, _on_alarm)
+        # the library prints progress / warnings (also from C): keep the check's stdout for the verdict lines only
+        dn = os.open(os.devnull, os.O_WRONLY)
+        os.dup2(dn, 1)
         mod = importlib.import_module(modname)
         known = Known(mod, stale)
         inflight = _Inflight(os.path.join(rundir, 'w%d.inflight' % widx))
